@@ -19,6 +19,13 @@ NESTED = False
 # Path Attribute Length of 0; yabgp accepts it and keeps the routes with {} as attributes).  Lookups through REST cannot
 # tell such a route from an absent one (ip_longest_match tests the attributes for truth), so C19.lookup is not judged there.
 EMPTYMODE = False
+# every third history: a received flowspec / VPNv4 UPDATE also carries, in its classic Withdrawn Routes field, an IPv4 prefix
+# that was never announced (one UPDATE for two address families; for the IPv4 table that withdrawal changes nothing)
+MIXED = False
+
+
+def MIXWD():
+    return wire.prefix4(24, b'\x0a\x09\x09') if MIXED else b''
 F = {'f1': ((192, 85, 1), '192.85.1.0/24'), 'f2': ((192, 85, 2), '192.85.2.0/24')}
 V = {'v1': (bytes([170, 0, 0, 0]), '170.0.0.0/32'), 'v2': (bytes([171, 0, 0, 0]), '171.0.0.0/32')}
 RD = b'\x00\x00\x00\x64\x00\x00\x00\x64'
@@ -66,8 +73,8 @@ def peer_update(f, wd, nl, a):
             return out
         un = wire.attr(0x80, 15, struct.pack('!HB', 1, 133) + rules(wd)) if wd else b''
         if nl:
-            return wire.update(attrs=BASE + med_attr(a) + wire.attr(0x80, 14, (struct.pack('!HBB', 1, 133, 4) + nh_of(a) if NHMODE else struct.pack('!HBB', 1, 133, 0)) + b'\x00' + rules(nl)) + un)
-        return wire.update(attrs=un)
+            return wire.update(withdrawn=MIXWD(), attrs=BASE + med_attr(a) + wire.attr(0x80, 14, (struct.pack('!HBB', 1, 133, 4) + nh_of(a) if NHMODE else struct.pack('!HBB', 1, 133, 0)) + b'\x00' + rules(nl)) + un)
+        return wire.update(withdrawn=MIXWD(), attrs=un)
 
     def routes(ks, withdraw):
         out = b''
@@ -77,8 +84,8 @@ def peer_update(f, wd, nl, a):
     un = wire.attr(0x80, 15, struct.pack('!HB', 1, 128) + routes(wd, True)) if wd else b''
     if nl:
         v = struct.pack('!HBB', 1, 128, 12) + b'\x00' * 8 + (nh_of(a) if NHMODE else b'\x02\x02\x02\x02') + b'\x00' + routes(nl, False)
-        return wire.update(attrs=BASE + med_attr(a) + wire.attr(0x80, 14, v) + un)
-    return wire.update(attrs=un)
+        return wire.update(withdrawn=MIXWD(), attrs=BASE + med_attr(a) + wire.attr(0x80, 14, v) + un)
+    return wire.update(withdrawn=MIXWD(), attrs=un)
 
 
 def rest_body(f, wd, nl, a):
@@ -177,7 +184,8 @@ class RibRun(object):
 
 
 def replay_walk(g, walk, tid):
-    global NHMODE, NESTED, EMPTYMODE
+    global NHMODE, NESTED, EMPTYMODE, MIXED
+    MIXED = (tid % 3 == 1)
     NHMODE = bool(tid % 2)
     NESTED = bool((tid // 2) % 2)
     EMPTYMODE = (tid % 8 == 4)
